@@ -77,13 +77,47 @@ def main():
                  'quant-short': 4, 'quant-ident': 5, 'cast-cond': 4, 'regex-rewrite': 2, 'modifier': 5, 'condition': 5}
         tpl = templates.thin(tpl, quota, rnd)
     ck.extra['templates'] = len(tpl)
-    ck.run_units([(name, templates.render(rule)) for _, name, rule in tpl], run_unit)
+    ck.run_units([('@cache-keys', None)] + [(name, templates.render(rule)) for _, name, rule in tpl], run_unit)
     ck.finish('every Document::find / Object::get that reaches the user document on any feasible path is for a key written '
               'in the rule at that nesting level; decided by z3 per recorded request (unsat = request infeasible)')
 
 
+def cache_keys(ck):
+    """the synthetic key of matrix column i is char::from_u32(i) (optimiser); the private Cache document decodes it
+    (solver).  For every column index a matrix can have (the optimiser only builds one when a field count is < 256)
+    the real Cache::find MIR must read exactly slot i."""
+    prog = ck.program()
+    uni = engine.Universe()
+    ex = ck.new_engine(prog, uni=uni, summarise=())
+    f = prog.find_impl('Document', 'Cache', 'find')
+    if f is None:
+        raise Unsupported('no MIR for Cache::find')
+    n = 256
+    markers = [Adt('Option', 1, 'Some', [Adt('Value', 3, 'Int', [mk_int(i, 'i64')])]) for i in range(n)]
+    vec = VecV(list(markers))
+    cache = Adt('Cache', None, None, [Ref(Cont([vec]), 0)])
+    bad = []
+    for i in range(n):
+        key = chr(i).encode('utf-8')
+        res = ex.explore(f, [Ref(Cont([cache]), 0), StrV(key)])
+        okv = len(res) == 1 and res[0].kind == 'return' and isinstance(res[0].value, Adt) and res[0].value.variant == 1 \
+            and res[0].value.items[0].items[0].v == i
+        if not okv:
+            bad.append((i, str(res[0].panic if res and res[0].kind == 'panic' else (res[0].value if res else None))))
+    ck.obligations += 1
+    if not bad:
+        ck.discharged += 1
+    else:
+        p = ck.write_replay('cache_keys', {'columns_read_wrongly': bad[:10]})
+        ck.violations.append((p, 'Cache::find does not decode the synthetic key of column %d (char::from_u32): %s' % bad[0]))
+    ck.samples.append({'form': 'Cache::find(char::from_u32(i)) reads slot i', 'columns': n})
+
+
 def run_unit(ck, unit):
     name, yaml = unit
+    if name == '@cache-keys':
+        cache_keys(ck)
+        return
     quick = ck.tier == 'quick'
     br = ck.bridge()
     base, variants, _ = collect_variants(ck, br, yaml, 3 if quick else 8)
